@@ -1,6 +1,7 @@
 (* C12: the generated Interpolation.__call__ / derivative evaluated symbolically (real-number instance)
    on a three-point table with symbolic abscissae, ordinates and Newton coefficients. *)
 From Coq Require Import Reals ZArith List String Lra.
+Set Warnings "-ambiguous-paths".
 From Coquelicot Require Import Coquelicot.
 From PyLib Require Import PyVal PyBuiltins Ideal PyEval.
 From Gen Require Import M_base M_Angle M_Interpolation.
